@@ -60,6 +60,9 @@ def run(tier):
                           "random sequence %s step %d: %s from %s gave %s, the specification says %s" % (
                               l["run"], l["at"], l["kind"], l["from"], l["observed"], l["expected"]), "cell")
     rep.cov["traces_validated_against_impl"] += lines[-1]["runs"] - len(bad_runs)
+    # (growth) the automaton inside the end-to-end pipeline (Pipeline.tla), under random TCP segmentations
+    from checks import common
+    common.pipeline_runs(rep, binary, PROP, "state", runs=300 if thorough else 60)
     for r in vlib.read_ndjson(sweep):
         rep.nontrivial((r["state"], r["kind"], r["dir"], tuple(r["res"])))
     return rep.finish("model_checking",
